@@ -186,6 +186,10 @@ impl TypeCtx {
     fn enter_pure(self) -> Self {
         Self { inside_pure: true, ..self }
     }
+
+    fn enter_function(self) -> Self {
+        Self { inside_loop: false, ..self }
+    }
 }
 
 impl TypeChecker {
@@ -948,6 +952,7 @@ impl TypeChecker {
             E::Function { name: _, params, ret, body, pure, span } => {
                 let (f_ty, ret_ty) = self.type_from_function(ctx, params, ret, *pure)?;
 
+                let ctx = ctx.enter_function();
                 let ctx = if *pure { ctx.enter_pure() } else { ctx };
                 let (actual_ret, implicit_ret) = self.expression_block(*span, body, ctx)?;
                 let actual_ret = if ret.is_void() {
